@@ -185,6 +185,9 @@ def r3_space_leaf(w):
             r.ok(cons, 'exactly %s' % want)
         else:
             r.bad(cons, 'convert_space|%s' % ('nl' if nl else 'no-nl'), 'convert_space maps a Space %s a line break to %s, expected exactly %s' % ('with' if nl else 'without', sorted(outs), want), b.loc())
+    for ok, cons, key, why, loc in e2.linebreak_predicate_obligations(w):
+        if cons['fn'].endswith('has_linebreak'):
+            (r.ok(cons, why) if ok else r.bad(cons, key, why, loc))
     return r
 
 
